@@ -11,6 +11,18 @@ CLAIMED = {
   "technique": "Lean 4 proof (induction over redirect chains) + exhaustive/generative model-vs-implementation correspondence",
   "design_ref": "4 C14",
  },
+ "C15": {
+  "text": "Lean 4 theorems, full statement: for every graph, option set, client skip predicate and duplicate-free root list the walk model (the ModuleEntryIterator state machine) terminates within its fuel, yields (x,e) iff x is in the inductively specified enqueued set Enq and e is the entry the statement assigns to x (walk_eq_visits, both directions by a worklist invariant), yields no specifier twice (walk_nodup), is insensitive to root order, and the error listing is exactly the errors attached to visited entries; clause lemmas spell out types-only replacement, redirect transparency, dynamic/type edge selection, skip and fast-check preference. Tied to /repo by regenerated tables (is_checkable, include_types) and by differential execution on built graphs x all walk options x root subsets x skip sets; an independent set-based BFS oracle checks the implementation against the statement.",
+  "note": "Model of ModuleEntryIterator::next (~70 lines of Rust) hand-written, validated by correspondence; fast-check dependency lists are inputs (graphs with fast-check modules are exercised from C12's packages). Duplicate roots passed by a caller are outside the theorem (hypothesis roots.Nodup) and outside the property's 'root subsets'.",
+  "technique": "Lean 4 proof (worklist invariant, soundness+completeness vs inductive reachability spec, termination measure) + model-vs-implementation correspondence",
+  "design_ref": "4 C15",
+ },
+ "C02": {
+  "text": "Lean 4 theorems: validate() = None iff no visited entry is a Failure, where Failure is the statement's predicate spelled out (error entry; failed resolution on a selected side; https->http; remote module importing a literal file: URL; missing target in place when following dynamic imports) - validate_ok_iff, built on C15's exact characterisation of what is visited; the reported error belongs to a reachable failure; type-only failures and unfollowed dynamic edges provably never matter for code validation; 'a reachable failure is never skipped' is proved for missing targets of followed dependencies and refuted for missing roots by a kernel-checked counterexample (finding F5). Tied to /repo by correspondence of errors()/validate()/valid() over built graphs x options x root subsets and an independent per-edge policy oracle.",
+  "note": "Error texts and ranges are opaque interned ids (compared exactly between model and implementation); check_resolution's scheme policy is modelled on four scheme classes.",
+  "technique": "Lean 4 proof (decision logic stated outright over the C15 reachability theorem) + model-vs-implementation correspondence",
+  "design_ref": "4 C02",
+ },
 }
 NOT_APPLICABLE = {}
 ALL = [f"C{i:02d}" for i in range(1, 21)]
